@@ -1,5 +1,6 @@
 """C08 - evaluation is demand-driven: nothing runs early, nothing runs twice."""
 import json
+import common
 import random
 import warnings
 
@@ -141,6 +142,7 @@ def logj(log):
 
 def run_case(p):
     """build lazily, then call next() one at a time recording the call log after every step"""
+    common.gc_point()
     log, rngs = [], []
     with warnings.catch_warnings():
         warnings.simplefilter('ignore')
